@@ -14,6 +14,11 @@ CHECKS = {
             "Generated-input search with an independent reference (double loop over lagged pairs). Every clause of the statement is a separate Hypothesis test; thorough shards 16 ways and enumerates a finite sub-domain completely. Not a proof: absence of counter-examples in the explored space.",
             "Trusts numpy integer arithmetic and the reference loop; state ids non-negative, -1 only as trailing padding.",
             "DESIGN.md §2 C03"),
+    "C13": ("exploration",
+            "Hypothesis-generated arrays x dtype x memory layout x out-buffer mode x OpenMP thread count vs exact integer/float64 reference; bit-identity metamorphic relation across layouts/threads; invalid inputs in child interpreters; thorough repeats under an ASan+UBSan build",
+            "Generated-input search against an exact reference (python-int arithmetic for integer dtypes). Layouts, out views with canaries, and thread counts are generated dimensions; invalid inputs must raise and are executed in child processes so a crash is recorded, and the thorough tier re-runs valid and invalid campaigns with the extensions compiled with -fsanitize=address,undefined so out-of-bounds accesses become visible. Races are searched by repetition, not excluded.",
+            "OpenMP schedule not controllable (thread count only); |int64| <= 2^53 and |float| <= 1e6; libasan/libubsan from gcc 12 as the memory oracle.",
+            "DESIGN.md §2 C13"),
 }
 
 NOT_YET = {}
